@@ -310,3 +310,42 @@ def real_detectors(ctx):
                 elif ref != (cs, dense):
                     ctx.violation(f"{name}: predict/transform depend on the index kind ({ik} vs range0): predict {cs} vs {ref[0]}", inp,
                                   dict(sig, what="index-dependence"))
+            # ---- fitted on ONE frame, applied to ANOTHER: other length, other row labels, other column labels (renamed / integers / the training labels in another
+            #      order) or a bare array.  The dense output must be labelled by the frame that is SCORED and invert to predict of that frame. ----
+            n2 = n + 9 + rep
+            other = np.vstack([base[:, :p], base[:9 + rep, :p]])
+            variants = [("renamed", [f"w{j}" for j in range(p)]), ("integers", [7 + 3 * j for j in range(p)]), ("training-labels-reversed", [f"v{j}" for j in range(p)][::-1]), ("ndarray", None)]
+            try:
+                d = mk().fit(pd.DataFrame(base[:, :p], columns=[f"v{j}" for j in range(p)]))
+                sp_ref = canon(d.predict(other.copy()))
+            except Exception as ex:
+                ctx.violation(f"{name}: fit on one frame / predict on an array of another length raised {type(ex).__name__}: {str(ex)[:100]}", {"detector": name, "n": n, "n_new": n2},
+                              {"kind": "real:" + name, "what": "exception", "cls": type(ex).__name__})
+                continue
+            for vk, (vname, cols) in enumerate(variants):
+                ik2 = INDEX_KINDS[(rep + vk) % len(INDEX_KINDS)]
+                B = other.copy() if cols is None else pd.DataFrame(other.copy(), index=make_index(ik2, n2), columns=cols)
+                inp = {"detector": name, "fitted_on": "frame with columns v0..", "scored": vname, "index": ik2, "n_train": n, "n_new": n2, "X_train": base[:, :p].tolist(), "X_new": other.tolist()}
+                sig = {"kind": "real-other-frame:" + name, "variant": vname}
+                try:
+                    sp = d.predict(B)
+                    tr = d.transform(B)
+                    back = d.dense_to_sparse(tr)
+                    Bf = pd.DataFrame(B)
+                    want = d.sparse_to_dense(sp, Bf.index, Bf.columns)
+                except Exception as ex:
+                    ctx.violation(f"{name}: fitted on a frame, predict/transform of another frame ({vname}, index {ik2}) raised {type(ex).__name__}: {str(ex)[:100]}", inp,
+                                  dict(sig, what="exception", cls=type(ex).__name__))
+                    continue
+                ctx.case({"real-other": name, "rep": rep, "variant": vname}, nontrivial=len(sp) > 0)
+                ctx.count("real_other_frame", vname)
+                cs, cb = canon(sp), canon(back)
+                wf = want if isinstance(want, pd.DataFrame) else want.to_frame()
+                tf = tr if isinstance(tr, pd.DataFrame) else tr.to_frame()
+                if cs != sp_ref:
+                    ctx.violation(f"{name}: predict of the frame ({vname}) = {cs} differs from predict of the same numbers as an array = {sp_ref}", inp, dict(sig, what="other-frame-predict"))
+                elif cs != cb:
+                    ctx.violation(f"{name}: fitted on one frame, dense_to_sparse(transform(B)) = {cb} differs from predict(B) = {cs} ({vname})", inp, dict(sig, what="other-frame-roundtrip"))
+                elif not tf.index.equals(Bf.index) or tf.shape != wf.shape or [str(c) for c in tf.columns] != [str(c) for c in wf.columns] or not np.array_equal(tf.to_numpy(), wf.to_numpy()):
+                    ctx.violation(f"{name}: fitted on a frame with columns v0.., transform(B) for B with columns {list(Bf.columns)} has columns {list(tf.columns)[:4]} / index of kind "
+                                  f"{type(tf.index).__name__}; sparse_to_dense(predict(B), B.index, B.columns) has columns {list(wf.columns)[:4]}", inp, dict(sig, what="other-frame-labels"))
